@@ -21,7 +21,45 @@ def _subst(text, root):
 def step_text(st):
     if "text" in st:
         return st["text"]
+    if "prog" in st:
+        from . import model07
+        return model07.render(st["prog"])
     return render_script(st["script"])
+
+
+def resolve_fault(fault, written):
+    """Turn symbolic fault positions (after_item / comment) into line/col using the
+    data model of the file as last written."""
+    if not fault or fault.get("kind") != "io":
+        return fault
+    if "after_item" not in fault and "comment" not in fault:
+        return fault
+    from . import model07
+    st = written.get(os.path.normpath(fault.get("path", "")))
+    f = dict(fault)
+    if st is None:
+        f["what"] = "none"
+        return f
+    if "after_item" in fault and "prog" in st:
+        f["line"] = model07.tear_line(st["prog"], fault["after_item"])
+        f["col"] = 0
+        return f
+    text = step_text(st)
+    k = int(fault.get("comment", 0))
+    pos = -1
+    for _ in range(k + 1):
+        pos = text.find("#", pos + 1)
+        if pos < 0:
+            f["what"] = "none"
+            return f
+    pos += 1   # the byte after '#'
+    if pos >= len(text) or text[pos] == "\n":
+        f["what"] = "none"
+        return f
+    before = text[:pos]
+    f["line"] = before.count("\n")
+    f["col"] = len(before) - (before.rfind("\n") + 1)
+    return f
 
 
 def _write_file(path, data):
@@ -57,6 +95,7 @@ class Executor:
         self.observe = observe  # 'all' | 'none'
         self.messages = messages
         self.loose = loose
+        self.written = {}
         self.bb = zygote.import_blackbird()
         pk = zygote.pkg_dir()
         self.trace_files = [os.path.join(pk, f) for f in zygote.HAND_WRITTEN]
@@ -94,6 +133,7 @@ class Executor:
         op = st["op"]
         ev = {"op": op}
         if op == "write":
+            self.written[os.path.normpath(st["path"])] = st
             _write_file(os.path.join(self.root, st["path"]), _subst(step_text(st), self.root).encode("latin-1"))
             return ev
         if op == "mkdir":
@@ -124,7 +164,7 @@ class Executor:
         return ev
 
     def do_load(self, st, ev):
-        fault = st.get("fault")
+        fault = resolve_fault(st.get("fault"), self.written)
         carry = zygote.carry_over()
         ev["carry"] = carry
         if st["op"] == "loads":
